@@ -163,7 +163,9 @@ pub fn parse_bundle(t: &[&str]) -> Option<(Bundle, usize)> {
     p.source = parse_eid(t[5])?;
     p.report_to = parse_eid(t[6])?;
     p.creation_timestamp = CreationTimestamp::with_time_and_seq(t[7].parse().ok()?, t[8].parse().ok()?);
-    p.lifetime = Duration::from_millis(t[9].parse().ok()?);
+    // milliseconds, beyond u64 as well (a Duration built through the API holds up to 2^64 seconds)
+    let ms: u128 = t[9].parse().ok()?;
+    p.lifetime = Duration::new(u64::try_from(ms / 1000).ok()?, ((ms % 1000) as u32) * 1_000_000);
     p.fragmentation_offset = t[10].parse().ok()?;
     p.total_data_length = t[11].parse().ok()?;
     let n: usize = t[12].parse().ok()?;
